@@ -80,7 +80,7 @@ def cases(rng, n_random, full=True):
                         continue  # quick tier: a stride of the pool for fields, methods, parameters and locals
                     names = dict(PLAIN)
                     names[role] = nm
-                    if nm == PLAIN[role] or names["f"] == names["g"] or names["fa"] == names["fb"] or names["m"] == names["im"]:
+                    if nm == PLAIN[role] or len(set(names.values())) < len(names):
                         continue
                     res.append((tpl, role, nm, render(names, tpl)))
     # two adversarial roles at once
@@ -90,6 +90,8 @@ def cases(rng, n_random, full=True):
             names[role] = rng.choice(lower_pool)
         if names["f"] == names["g"] or names["fa"] == names["fb"] or names["m"] == names["im"]:
             continue
+        if len(set(names.values())) < len(names):
+            continue  # two roles under one name shadow each other in the source already: not a renaming
         ch = sorted(k for k in names if names[k] != PLAIN[k])
         tpl = rng.choice(["a", "b"])
         res.append((tpl, "+".join(ch), ",".join(names[k] for k in ch), render(names, tpl)))
